@@ -273,6 +273,8 @@ func runC06(c *Ctx) {
 	closedSocketInNoRoom(c, "C06-D6")
 
 	c06Round4(c)
+	c.Rule("C06-D11", "a connection that ended with a parse error is really ended (F46, shared with C10-D12): the client closes the Engine.IO socket after reporting the closure", 1)
+	parseErrorClosesConnection(c, "C06-D11")
 
 	c.Rule("C06-D7", "the Engine.IO close closes the transport for every reason except exactly those that say the transport has already closed (transport close / transport error): "+
 		"for each Reason constant of the package the reason test of serverSocket.close / clientSocket.close is folded and transport.Close() must be reachable iff the reason is not one of the two; "+
